@@ -3,6 +3,7 @@
     [Print Assumptions].  [build] is IndexedInstruments::new (None = panic); names are abstract
     ordered keys (see Model/Index.v). *)
 From BV Require Import Base.Common Model.Index Proofs.Index.
+From BV Require Import Model.ExecMap Proofs.ExecMap.
 From BV Require Import Corr.C11 Proofs.CorrC11.
 From Coq Require Import Permutation.
 
@@ -99,6 +100,33 @@ Proof.
   split; [exact (inames_wf_b_sound l)|exact (inames_wf_ex l)].
 Qed.
 Print Assumptions C11_hypothesis_checks.
+
+(** The execution-link table of EVERY exchange of EVERY built collection
+    (generate_execution_instrument_map): a table exists exactly for the indexed exchanges; at a
+    global instrument / asset index it holds a name only if that index belongs to the exchange,
+    and then exactly that entity's exchange name ([instrument_owner] / [asset_owner] read the
+    owner and exchange name of an index from the collection); foreign and out-of-range indices
+    resolve to nothing; name -> index and index -> name are mutual inverses; and, when exchange
+    names are distinct within the exchange, every own index is present. *)
+Theorem C11_execution_map_aligned : forall l x e, build l = Some x ->
+  (gen_map x e = None <-> ~ In e (map snd (x_exchanges x))) /\
+  forall m, gen_map x e = Some m ->
+    (forall k n, find_instrument_name m k = Some n ->
+       instrument_owner x k = Some (e, n) /\ find_instrument_ix m n = Some k) /\
+    (forall k n, find_instrument_ix m n = Some k ->
+       instrument_owner x k = Some (e, n) /\ find_instrument_name m k = Some n) /\
+    (forall k, (forall n, instrument_owner x k <> Some (e, n)) -> find_instrument_name m k = None) /\
+    (names_distinct x e -> forall k n, instrument_owner x k = Some (e, n) ->
+       find_instrument_name m k = Some n /\ find_instrument_ix m n = Some k) /\
+    (forall k n, find_asset_name m k = Some n ->
+       asset_owner x k = Some (e, n) /\ find_asset_ix m n = Some k) /\
+    (forall k n, find_asset_ix m n = Some k ->
+       asset_owner x k = Some (e, n) /\ find_asset_name m k = Some n) /\
+    (forall k, (forall n, asset_owner x k <> Some (e, n)) -> find_asset_name m k = None) /\
+    (names_distinct x e -> forall k n, asset_owner x k = Some (e, n) ->
+       find_asset_name m k = Some n /\ find_asset_ix m n = Some k).
+Proof. exact exec_map_aligned. Qed.
+Print Assumptions C11_execution_map_aligned.
 
 (** Link between the model theorems and the executable oracle of the correspondence check
     (Corr/C11.v): on every well-formed case (faithful definition keys both ways; for the
